@@ -76,7 +76,7 @@ CHECKS = {
         "stuck note is a refuted witness (C01_keysim_mapping_refuted, finding K2). Tie to /repo: the real Device is stepped event by event through "
         "generated histories and templates; a subset is disconnected at every prefix; the receiver-side sounding set is reconstructed in coqc from "
         "the implementation's bytes and must be empty at every quiescent point and after clean-up.",
-   note="Trusted: Coq kernel + VM; hand-written device model compared per event with the implementation; 'no key-emulating axis held' is stated on the axis tracker, not on the physical position (K2); one key code is assumed not to be emitted by two sub-handlers at once. No axioms.",
+   note="Trusted: Coq kernel + VM; hand-written device model compared per event with the implementation; 'no key-emulating axis held' is stated on the axis tracker, not on the physical position (K2); one key code is assumed not to be emitted by two sub-handlers at once. No axioms. The machine-level corollaries (C01_machine_*) are stated over the float machine frun and list the four standard-library real-number axioms of Flocq's proof terms.",
    technique="Coq proof by invariant induction over histories + per-event differential correspondence with receiver-side reconstruction",
    design="§5 C01"),
  "C02": dict(
@@ -165,7 +165,7 @@ CHECKS = {
         "(C07_side_and_zeroing); while CC-learning is held an event is processed iff beyond half travel and a dropped event changes nothing "
         "(C07_learning_gate). Tie to /repo: real Device with 1-3 bidirectional axes (signed, unsigned centred), scripts with every ordered pair of "
         "{far-, half-, near-, centre, near+, half+, far+}, learning toggled; receiver-side CC values reconstructed in coqc from the bytes.",
-   note="Trusted: Coq kernel + VM; Flocq float layer for the run-time comparison only (the theorems are float-free); channel/mapping actions are outside C07's quantifier. No axioms in the theorems.",
+   note="Trusted: Coq kernel + VM; Flocq float layer for the run-time comparison only (the theorems are float-free); channel/mapping actions are outside C07's quantifier. No axioms in the theorems. C07_machine_* are stated over the float machine frun and list the four standard-library real-number axioms.",
    technique="Coq proof by invariant induction over sample histories + receiver-side differential correspondence",
    design="§5 C07"),
  "C08": dict(
@@ -175,7 +175,7 @@ CHECKS = {
         "C08_pairing, C08_frozen); the two directions of an axis are never on together in ANY reachable state of ANY history (C08_exclusive). "
         "Tie to /repo: hat and stick axes, signed/unsigned, flipped, with/without negative note, every ordered pair of {Neg, Gap-, Mid, Gap+, Pos}, "
         "octave/semitone/channel actions interleaved; a spec interpreter built from the theorems' formulas runs in coqc on the implementation's bytes.",
-   note="Trusted: Coq kernel + VM; the zone of a position comes from the Flocq float layer (bit-exact, validated by C06's correspondence); one axis code is assumed not to be key-emulated by two sub-handlers at once. No axioms in the theorems.",
+   note="Trusted: Coq kernel + VM; the zone of a position comes from the Flocq float layer (bit-exact, validated by C06's correspondence); one axis code is assumed not to be key-emulated by two sub-handlers at once. No axioms in the theorems. C08_machine_* are stated over the float machine frun and list the four standard-library real-number axioms.",
    technique="Coq proof by case analysis + invariant over all histories; differential correspondence against a spec interpreter",
    design="§5 C08"),
  "C09": dict(
